@@ -253,6 +253,58 @@ def f1_f4(ctx, res: Result, ci: ClassInfo) -> CacheModel:
                                 f"cached field {f} is re-assigned outside the refresh branch: what the object reports afterwards depends on which methods were called before",
                                 construct=src(n)[:300])
     res.count("cache_stores", nstores)
+    # F4d: a field assigned inside the refresh branch is assigned on every path through it.  A field that is only
+    # refreshed under a further condition keeps, on the other paths, a value computed for an earlier configuration
+    # while its siblings are new - unless that condition covers everything the value depends on, which a nested
+    # staleness sub-test over *part* of the snapshot does not.
+    def _stores(st):
+        out = set()
+        for m in ast.walk(st):
+            if isinstance(m, (ast.Assign, ast.AnnAssign)):
+                for t in (m.targets if isinstance(m, ast.Assign) else [m.target]):
+                    f = _self_attr(t, cn)
+                    if f:
+                        out.add(f)
+        return out
+
+    def _must(stmts):
+        must = set()
+        for st in stmts:
+            if isinstance(st, ast.If):
+                b_ends = bool(st.body) and isinstance(st.body[-1], ast.Raise)
+                e_ends = bool(st.orelse) and isinstance(st.orelse[-1], ast.Raise)
+                mb, me = _must(st.body), _must(st.orelse)
+                if b_ends:
+                    must |= me
+                elif e_ends:
+                    must |= mb
+                else:
+                    must |= (mb & me)
+            elif isinstance(st, (ast.For, ast.While)):
+                continue
+            elif isinstance(st, ast.Try):
+                must |= _must(st.body)
+            elif isinstance(st, ast.With):
+                must |= _must(st.body)
+            else:
+                must |= _stores(st)
+        return must
+
+    for fi, n, neg in model.refresh_ifs:
+        body = model.refresh_body(fi, n, neg)
+        may = set()
+        for st in body:
+            may |= _stores(st)
+        if model.snapfield not in may:
+            continue
+        must = _must(body)
+        for f in sorted(may - must):
+            site = next((m for st in body for m in ast.walk(st) if isinstance(m, (ast.Assign, ast.AnnAssign)) and any(_self_attr(t, cn) == f for t in (m.targets if isinstance(m, ast.Assign) else [m.target]))), n)
+            res.bad("F4-cache-refreshed-on-every-path", f"{fi.qualname}:{f}", fi.site(site), fi.qualname,
+                    f"field {f} is assigned inside the refresh branch only under a further condition: when that condition is false the refresh completes (the snapshot is updated) but {f} keeps the value computed for an earlier configuration",
+                    construct=src(site)[:200])
+        for f in sorted(must & may):
+            res.ok("F4-cache-refreshed-on-every-path", f"{fi.qualname}:{f}", fi.site(n), fi.qualname, "assigned on every path through the refresh branch")
     # F4b: every other private field written after construction is a configuration slot (assigned in its
     # property setter from the setter's parameter); anything else is state that depends on call history
     slots = _slots(ci)
